@@ -47,20 +47,20 @@ PROPS = {
         'C02_check: pg_read(sql) must succeed, be built from allowed nodes only, every column must be a field/default field of the query and every string constant a (translated) value of the query.',
         ['PgModel is a conservative model of scan.l/gram.y validated one-directionally against pg_query in design; not re-validated at run time']),
     'C03': P(
-        ['C03_pattern_translation_preserves_meaning', 'C03_grammar_reads_the_query_structure', 'C03_sql_true_on_exactly_the_rows_of_the_query', 'C03_rendered_sql_is_true_on_exactly_the_rows_of_the_query', 'C03_fragment_renders_and_selects_exactly_the_rows_of_the_query'],
+        ['C03_pattern_translation_preserves_meaning', 'C03_grammar_reads_the_query_structure', 'C03_sql_true_on_exactly_the_rows_of_the_query', 'C03_rendered_sql_is_true_on_exactly_the_rows_of_the_query', 'C03_fragment_renders_and_selects_exactly_the_rows_of_the_query', 'C03_query_text_to_rows'],
         [('corpus', 0), ('sem', 1700), ('sem', 1700), ('sem', 1700), ('rand', 2000), ('scale-list', 0), ('scale-digits', 0), ('scale-values', 0), ('scale-names', 0), ('pairs', 0)],
         [('corpus', 0), ('sem', 20000), ('sem', 20000), ('sem', 20000), ('sem', 20000), ('rand', 20000), ('scale-list', 0), ('scale-digits', 0), ('scale-values', 0), ('scale-names', 0), ('pairs', 0)],
         PARSE + ['Render', 'ToPostgres', 'SqlToks'],
-        'proved for the fragment with integer and string constants (Spec/SqlFrag.tr): for every tree (AND, OR, NOT, +, - over equality, comparisons, integer ranges with every inclusivity and open ends, value lists, wildcard patterns; any depth) PostgreSQL grammar reads from the SQL token sequence exactly the same Boolean combination of the same leaf predicates, and that expression is true on exactly the rows on which the query is true, for every row (numbers compare numerically - the decimal text of an integer denotes it - strings as strings, patterns by the translation theorem). And end to end on the model: whenever the model Render returns a text s for such a tree (field names of at most 63 bytes, range integers within int64, patterns not of the /.../ form), the PostgreSQL scanner and grammar models read from s exactly that expression (Proofs/SqlText: Render text = btxt; Proofs/SqlLex: pg_lex btxt = tr tokens; one lemma per token kind of scan.l that occurs). The same token sequence is also compared per case with the scanner model on the implementation text. Render succeeds on the fragment when the literal function accepts every leaf text (valid UTF-8 per the oracle, no NUL). Not proved: floats (their text comes from strconv: oracle), string ranges (K1, K2); that ToPostgres = Parse then Render is the Api model, tied by the correspondence. Those and everything else are decided by the executable semantics: the meaning of the query text (Spec/QuerySem.qsem on the model parse) against the meaning of the SQL text as the PostgreSQL model reads it (Spec/SqlSem.ssem on PgModel.pg_read), on probe rows hitting every region cut out by the query constants.',
+        'proved for the fragment with integer and string constants (Spec/SqlFrag.tr): for every tree (AND, OR, NOT, +, - over equality, comparisons, integer ranges with every inclusivity and open ends, value lists, wildcard patterns; any depth) PostgreSQL grammar reads from the SQL token sequence exactly the same Boolean combination of the same leaf predicates, and that expression is true on exactly the rows on which the query is true, for every row (numbers compare numerically - the decimal text of an integer denotes it - strings as strings, patterns by the translation theorem). And end to end on the model: whenever the model Render returns a text s for such a tree (field names of at most 63 bytes, range integers within int64, patterns not of the /.../ form), the PostgreSQL scanner and grammar models read from s exactly that expression (Proofs/SqlText: Render text = btxt; Proofs/SqlLex: pg_lex btxt = tr tokens; one lemma per token kind of scan.l that occurs). The same token sequence is also compared per case with the scanner model on the implementation text. Render succeeds on the fragment when the literal function accepts every leaf text (valid UTF-8 per the oracle, no NUL); and from the query TEXT: for a query printed from a specification tree (C05) whose parse is in the fragment, ToPostgres returns a text from which PostgreSQL reads an expression true on exactly the rows of the query. Not proved: floats (their text comes from strconv: oracle), string ranges (K1, K2); that ToPostgres = Parse then Render is the Api model, tied by the correspondence. Those and everything else are decided by the executable semantics: the meaning of the query text (Spec/QuerySem.qsem on the model parse) against the meaning of the SQL text as the PostgreSQL model reads it (Spec/SqlSem.ssem on PgModel.pg_read), on probe rows hitting every region cut out by the query constants.',
         'fragment trees (equality, comparisons, ranges with every bound kind x inclusivity, value lists, patterns, AND/OR/NOT/+/-, parentheses, juxtaposition), each evaluated on up to 300 probe rows (all constants, +-1, all pairwise midpoints; strings: each constant, just above, just below, pattern instances and near misses); non-trivial = rendered and read back by the PostgreSQL model',
         'C03_check evaluates qsem on the model parse against ssem on pg_read of the implementation SQL on probe rows; check_sqltoks compares the scanner model on the SQL text with SqlFrag.tr of the returned tree',
         ['PostgreSQL reading of the SQL text is the PgModel one; string order is byte order on both sides']),
     'C04': P(
-        ['C04_placeholders_match_parameters', 'C04_parameters_are_the_values', 'C04_parameterized_sql_selects_the_rows_of_the_query', 'C04_substituted_parameters_equivalent_to_inline', 'C04_sql_text_independent_of_values', 'C04_render_param_returns'],
+        ['C04_placeholders_match_parameters', 'C04_parameters_are_the_values', 'C04_parameterized_sql_selects_the_rows_of_the_query', 'C04_substituted_parameters_equivalent_to_inline', 'C04_parameterized_text_read_by_postgres', 'C04_all_values_travel_as_parameters', 'C04_query_text_to_parameterized_rows', 'C04_sql_text_independent_of_values', 'C04_render_param_returns'],
         [('corpus', 0), ('rand', 4000), ('subst', 1500), ('quote', 1000), ('sem', 2500), ('scale-list', 0), ('scale-giant', 0), ('scale-digits', 0), ('pairs', 0)],
         [('corpus', 0), ('rand', 60000), ('subst', 20000), ('quote', 20000), ('sem', 40000), ('scale-list', 0), ('scale-giant', 0), ('scale-digits', 0), ('pairs', 0)],
         PARSE + SQL + ['SqlToks', 'SqlToksP'],
-        'partial: clause (a) placeholder count = parameter count proved for every tree of parser shape outside K13; clause (b) parameters = the values in left-to-right order with their Go kinds proved for every tree of parser shape; clause (d) same-kind trees render the same parameterized text proved for every tree of any shape; clause (c) proved for the fragment with integer and string constants (Spec/SqlFragP.trp): PostgreSQL grammar reads from the parameterized token sequence an expression that, with the returned parameters bound, is true on exactly the rows of the query, hence equivalent to the inline expression, for every tree of any depth and every row (token sequence and parameter list tied to the implementation per case: correspondence SqlToksP); RenderParam total. Outside that fragment (floats, string ranges, K-classes) clause (c) is decided by C04_check on probe rows.',
+        'partial: clause (a) placeholder count = parameter count proved for every tree of parser shape outside K13; clause (b) parameters = the values in left-to-right order with their Go kinds proved for every tree of parser shape; clause (d) same-kind trees render the same parameterized text proved for every tree of any shape; clause (c) proved for the fragment with integer and string constants (Spec/SqlFragP.trp): PostgreSQL grammar reads from the parameterized token sequence an expression that, with the returned parameters bound, is true on exactly the rows of the query, hence equivalent to the inline expression, for every tree of any depth and every row (token sequence and parameter list tied to the implementation per case: correspondence SqlToksP), and end to end on the model: whenever RenderParam returns (text, parameters) the parameters are those of trp and the scanner and grammar models read that expression from the text with its placeholders numbered; the parameterized expression holds no constant at all (every value travels as a parameter); the same from the query text for printed trees; RenderParam total. Outside that fragment (floats, string ranges, K-classes) clause (c) is decided by C04_check on probe rows.',
         'random structured queries, same-kind value substitutions (pairs), quoted/escaped values; non-trivial = both renderers succeeded',
         'C04_check on (inline, parameterized) observation pairs and on substitution pairs.',
         ['oracle fact: ParseFloat rejects a text starting with a quote']),
@@ -108,11 +108,11 @@ PROPS = {
         '', []),
     'C10': P(
         ['C10_parse_all_or_nothing', 'C10_returned_tree_wellformed', 'C10_to_postgres_shape', 'C10_to_param_postgres_shape'],
-        [('corpus', 0), ('enum', 1500), ('rand', 5000), ('lex', 1500), ('nearmiss', 0), ('scale-list', 0), ('scale-giant', 0), ('scale-digits', 0), ('pairs', 0)],
-        [('corpus', 0), ('enum', 30000), ('rand', 80000), ('lex', 20000), ('scale-list', 0), ('scale-giant', 0), ('scale-digits', 0), ('pairs', 0)],
+        [('corpus', 0), ('enum', 1500), ('rand', 5000), ('lex', 1500), ('nearmiss', 0), ('inject', 1500), ('scale-list', 0), ('scale-giant', 0), ('scale-digits', 0), ('pairs', 0)],
+        [('corpus', 0), ('enum', 30000), ('rand', 80000), ('lex', 20000), ('inject', 20000), ('scale-list', 0), ('scale-giant', 0), ('scale-digits', 0), ('pairs', 0)],
         PARSE + ['ToPostgres', 'ToParameterizedPostgres'],
         'full: Parse returns a tree xor an error; every returned tree passes Validate and the independent shape predicate; ToPostgres/ToParameterizedPostgres result shapes.',
-        'token sequences, random and damaged queries, random bytes; non-trivial = accepted',
+        'token sequences, random and damaged queries, random bytes, hostile texts (NUL, invalid UTF-8, quotes) inside quoted values and field names; non-trivial = accepted',
         '', ['oracle fact: %v of a float64 is non-empty']),
     'C11': P(
         ['C11_default_field_scopes_bare_terms', 'C11_parse_with_default_field'],
